@@ -615,8 +615,10 @@ def jobs(tier, seed):
   for n in ns:
     out.append(Job('batchdl_n%d' % n, batch_dl,
                    dict(q=q, n=n, L=1, history=[]), timeout=3000, cost=n))
-  for n in ([4, 9, 16, 30] if not thorough else [4, 9, 16, 25, 30, 48, 64]):
+  for n in ([4, 9, 16] if not thorough else [4, 9, 16, 25, 30, 48, 64]):
     for L in (2, 3):
+      if L == 3 and n > (9 if not thorough else 25):
+        continue
       out.append(Job('batchdl_n%d_L%d' % (n, L), batch_dl,
                      dict(q=q if n * L < 120 else 65521, n=n, L=L,
                           history=[]), timeout=3000, cost=n**L / 10.0))
